@@ -2,6 +2,28 @@
 over the shards; budgets are case counts, never time."""
 
 PROPS = {
+    "C17": {
+        "pkg": "c17", "needs_gw": True, "level": "exploration",
+        "technique": "stateful property-based testing (rapid) with a harness-owned schedule + linearizability checking (porcupine): generated create/update/delete/lookup histories on auth.IAMCache over a parking stub service, concurrent mutations of the internal store, end-to-end admin programs",
+        "level_text": ("Generated histories and interleavings: (A) ops on 2 access keys (some pre-existing in the service, not cached) run on one "
+                       "IAMCache whose backing service parks every call before and after it takes effect; which parked call proceeds is a rapid "
+                       "draw, so 'lookup misses, fetches, is parked; delete completes; lookup resumes' is generated, shrunk and replayed as a value; "
+                       "the history must be linearizable w.r.t. a map of accounts (all attributes). (S) real goroutines mutate auth.NewInternal "
+                       "concurrently; the observed history must be linearizable and users.json must parse and equal the model. (B) through a real "
+                       "gateway process: create => first request works (and, as root with --chuid/--chgid, files carry the account's uid/gid); "
+                       "secret change => old 403 / new 200; delete => 403; concurrent admin mutations => list-users equals the model."),
+        "level_note": "interleavings are explored at the granularity of the service call boundary (before / after effect); ops blocked on locks inside the code are recognised by a 4 ms quiescence rule which can only lengthen recorded intervals (sound). Staleness across different gateway processes is outside the statement.",
+        "rule": ("A: (pre-existing keys, <=7 ops, <=24 schedule choices); non-trivial: a lookup overlaps a mutation of the same key in real time or a created "
+                 "account has a non-zero uid/gid. S: non-trivial: >= 2 mutations of one key overlap. B: every program is non-trivial (it contains a change followed by use)."),
+        "assumptions": ["porcupine v1.3.0 decides linearizability", "TTL 1 h in layer A so expiry plays no role; layer B uses the gateway's default cache (120 s)"],
+        "jobs": [
+            {"run": "TestC17A", "quick": 9000, "thorough": 300000, "shards_quick": 9, "shards_thorough": 16},
+            {"run": "TestC17S", "quick": 4000, "thorough": 200000, "shards_quick": 2, "shards_thorough": 16},
+            {"run": "TestC17E", "quick": 1600, "thorough": 60000, "shards_quick": 2, "shards_thorough": 16},
+            {"run": "TestC17O", "quick": 600, "thorough": 20000, "shards_quick": 1, "shards_thorough": 8},
+            {"run": "TestC17X", "quick": 60, "thorough": 3000, "shards_quick": 2, "shards_thorough": 16},
+        ],
+    },
     "C14": {
         "pkg": "c14", "needs_gw": False, "level": "exploration",
         "technique": "property-based testing (rapid) + native fuzzing: glob differential against a reference matcher, generated policy documents x queries against an own evaluator (with metamorphic permutation / re-shaping), mutation-built invalid documents must be refused deterministically, end-to-end PutBucketPolicy",
